@@ -216,13 +216,21 @@ Internal ==
   \/ EnterPatternRules \/ RootRound \/ EndElements \/ EndRules \/ EndRoot
 
 -----------------------------------------------------------------------------
-(* Properties (state predicates over the history obs; with ObsKeep = 0 they *)
-(* speak about the whole run so far, with ObsKeep = k about its last k      *)
-(* activations).                                                            *)
+(* Properties.  obs only ever grows by appending (or, with ObsKeep = k, is   *)
+(* the last k entries of that history), and every prefix of a history is the *)
+(* history of an earlier reachable state.  A property of the form "for all   *)
+(* adjacent activations a, c" is therefore stated for the LAST pair of obs   *)
+(* and checked in every reachable state, which covers every pair at a cost   *)
+(* independent of the length of the run.                                     *)
 
 LexLess(a, b) == \E k \in 1..Len(a) : (\A j \in 1..(k - 1) : a[j] = b[j]) /\ a[k] < b[k]
 Prefix(p, n) == SubSeq(p, 1, n)
 SameRound(a, b) == Prefix(a.pos, 6) = Prefix(b.pos, 6)
+
+HasLast == Len(obs) >= 1
+HasPair == Len(obs) >= 2
+Last == obs[Len(obs)]          \* the newest activation
+Prev == obs[Len(obs) - 1]      \* the one before it
 
 TypeOK ==
   /\ phase \in {"config", "parsed", "begin", "files", "end", "done"}
@@ -244,19 +252,20 @@ PartitionLaw ==
           /\ j > 1 => part[k][j - 1] < part[k][j]
     /\ \A i \in 1..Len(rules) : \E j \in 1..Len(part[rules[i].kind]) : part[rules[i].kind][j] = i
 
-\* File/Value/SelectorOrder, stage order, element order, source order within an
-\* element, and "at most once": activations are strictly increasing in
-\* <<phase, file, value, selector, stage, round, rule, test/body>>
-Ordered == \A k \in 1..(Len(obs) - 1) : LexLess(obs[k].pos, obs[k + 1].pos)
+\* File/Value/SelectorOrder, stage order (BEGINFILE < pattern < ENDFILE), element
+\* order, rule order within a kind, and "at most once": activations are strictly
+\* increasing in <<phase, file, value, selector, stage, round, rule, test/body>>
+Ordered == HasPair => LexLess(Prev.pos, Last.pos)
 
-BeginFirst == \A k \in 1..Len(obs) : \A m \in 1..Len(obs) : (obs[k].k = "B" /\ obs[m].k # "B") => k < m
-EndLast == \A k \in 1..Len(obs) : \A m \in 1..Len(obs) : (obs[k].k = "E" /\ k < m) => obs[m].k = "E"
-EndDollarNull == \A k \in 1..Len(obs) : obs[k].k = "E" => obs[k].d = DNull
+\* no BEGIN rule after a rule of another kind; only END rules after an END rule
+BeginFirst == HasPair => (Last.k = "B" => Prev.k = "B")
+EndLast == HasPair => (Prev.k = "E" => Last.k = "E")
+EndDollarNull == HasLast => (Last.k = "E" => Last.d = DNull)
 
 \* $, $index, $file as the statement prescribes them for each activation
 Bindings ==
-  \A k \in 1..Len(obs) :
-    LET a == obs[k] f == a.pos[2] v == a.pos[3] s == a.pos[4] IN
+  HasLast =>
+    LET a == Last f == a.pos[2] v == a.pos[3] s == a.pos[4] IN
     /\ a.k \in {"BF", "EF"} => a.d = DRoot(f, v, s) /\ a.fb = f
     /\ a.k = "P" =>
          /\ a.fb = f
@@ -266,28 +275,26 @@ Bindings ==
 
 \* a round visits the pattern rules in source order
 SourceOrderWithinElement ==
-  \A k \in 1..(Len(obs) - 1) :
-    (obs[k].k = "P" /\ obs[k + 1].k = "P" /\ SameRound(obs[k], obs[k + 1])) => obs[k].r <= obs[k + 1].r
+  HasPair => ((Prev.k = "P" /\ Last.k = "P" /\ SameRound(Prev, Last)) => Prev.r <= Last.r)
 
 \* a body runs iff the pattern is absent or truthy: a truthy test is followed
 \* by that rule's body and by nothing else; a pattern body has such a test before it
 BodyIffPattern ==
-  /\ \A k \in 1..Len(obs) :
-       (obs[k].t = "test" /\ ~rules[obs[k].r].haspat) => obs[k].b
-  /\ \A k \in 1..(Len(obs) - 1) :
-       /\ (obs[k].t = "test" /\ obs[k].b) =>
-             obs[k + 1].t = "body" /\ obs[k + 1].r = obs[k].r /\ SameRound(obs[k], obs[k + 1])
-       /\ (obs[k + 1].t = "body" /\ obs[k + 1].k = "P") =>
-             obs[k].t = "test" /\ obs[k].b /\ obs[k].r = obs[k + 1].r /\ SameRound(obs[k], obs[k + 1])
-  /\ (Len(obs) > 0 /\ obs[Len(obs)].t = "test" /\ obs[Len(obs)].b) => tested
-  /\ (ObsKeep = 0 /\ Len(obs) > 0 /\ obs[1].k = "P") => obs[1].t = "test"
+  /\ HasLast =>
+       /\ (Last.t = "test" /\ ~rules[Last.r].haspat) => Last.b
+       /\ (Last.t = "test" /\ Last.b) <=> tested
+       /\ (Last.t = "body" /\ Last.k = "P") => HasPair
+  /\ HasPair =>
+       /\ (Prev.t = "test" /\ Prev.b) =>
+             Last.t = "body" /\ Last.r = Prev.r /\ SameRound(Prev, Last)
+       /\ (Last.t = "body" /\ Last.k = "P") =>
+             Prev.t = "test" /\ Prev.b /\ Prev.r = Last.r /\ SameRound(Prev, Last)
 
 \* next: nothing more in this round, and the run goes on with what follows the round
 NextSkipsRestOfElementOnly ==
-  \A k \in 1..(Len(obs) - 1) :
-    obs[k].sig = "next" =>
-      /\ ~SameRound(obs[k], obs[k + 1])
-      /\ LET a == obs[k] c == obs[k + 1] f == a.pos[2] v == a.pos[3] s == a.pos[4] IN
+  (HasPair /\ Prev.sig = "next") =>
+      /\ ~SameRound(Prev, Last)
+      /\ LET a == Prev c == Last f == a.pos[2] v == a.pos[3] s == a.pos[4] IN
          \* the next activation is the first rule of the next element if there is one ...
          IF files[f][v][s].n > a.pos[6] + 1
            THEN c.k = "P" /\ c.i = 0 /\ Prefix(c.pos, 5) = Prefix(a.pos, 5) /\ c.pos[6] = a.pos[6] + 1
@@ -295,28 +302,28 @@ NextSkipsRestOfElementOnly ==
            ELSE Prefix(c.pos, 5) # Prefix(a.pos, 5)
 
 \* exit: the activation that raised it is the last one, the outcome is ok
+Exited == HasLast /\ Last.sig = "exit"
 ExitAbsorbing ==
-  /\ \A k \in 1..(Len(obs) - 1) : obs[k].sig # "exit"
-  /\ (Len(obs) > 0 /\ obs[Len(obs)].sig = "exit") => (signal = "exit" \/ phase = "done")
-  /\ signal = "exit" => (Len(obs) > 0 /\ obs[Len(obs)].sig = "exit")
+  /\ HasPair => Prev.sig # "exit"
+  /\ Exited => (signal = "exit" \/ phase = "done")
+  /\ signal = "exit" => Exited
+  /\ signal = "next" => (HasLast /\ Last.sig = "next" /\ level = "rule")
 \* ... and nothing happens after the end of the run (action property)
 Absorbing == [][phase # "done"]_dvars
 
-\* ElementMultiplicity: the rounds of a root seen so far are 0, 1, 2, ... in
-\* order (arrays) or a single round (others); once a later activation exists,
-\* or the run finished without exit, all n rounds (resp. the one round) were made.
-\* Observable when there is at least one pattern rule (ObsKeep = 0 only).
+\* ElementMultiplicity: an array root of length n gets exactly the rounds 0..n-1
+\* in order, any other root exactly one.  Counted (when there is a pattern rule,
+\* so that rounds are visible in obs, and the whole history is kept) at the moment
+\* the rounds of a root are over, and for all roots at the end of a run without exit.
 RoundsOf(f, v, s) ==
   SelectSeq(obs, LAMBDA a : a.k = "P" /\ a.t = "test" /\ a.i = 0 /\ Prefix(a.pos, 4) = <<1, f, v, s>>)
-LaterThan(f, v, s) ==
-  \E k \in 1..Len(obs) : LexLess(<<1, f, v, s, 1, 1000000>>, Prefix(obs[k].pos, 6))
-Exited == Len(obs) > 0 /\ obs[Len(obs)].sig = "exit"
+RoundsRight(f, v, s) ==
+  LET R == RoundsOf(f, v, s) n == files[f][v][s].n IN
+  /\ Len(R) = (IF n >= 0 THEN n ELSE 1)
+  /\ \A j \in 1..Len(R) : R[j].pos[6] = j - 1
 ElementMultiplicity ==
   (ObsKeep = 0 /\ phase \notin {"config", "parsed"} /\ N("P") > 0) =>
-    \A f \in 1..Len(files) : \A v \in 1..Len(files[f]) : \A s \in 1..Len(files[f][v]) :
-      LET R == RoundsOf(f, v, s) n == files[f][v][s].n
-          want == IF n >= 0 THEN n ELSE 1 IN
-      /\ Len(R) <= want
-      /\ \A j \in 1..Len(R) : R[j].pos[6] = j - 1
-      /\ (LaterThan(f, v, s) \/ (phase = "done" /\ ~Exited)) => Len(R) = want
+    /\ (phase = "files" /\ level = "ef" /\ ri = 1 /\ signal = "none") => RoundsRight(fi, vi, si)
+    /\ (phase = "done" /\ ~Exited) =>
+          \A f \in 1..Len(files) : \A v \in 1..Len(files[f]) : \A s \in 1..Len(files[f][v]) : RoundsRight(f, v, s)
 =============================================================================
